@@ -293,6 +293,36 @@ def lookup_table():
     return defn("lookup_table", "list (string * lookup_src * list string * bool)", coq_list(rows))
 
 
+def retry_without_language():
+    """load_linter_config: which exceptions of from_dict(config_dict, language=language) trigger the retry without the
+    language, and which units build their config through load_linter_config"""
+    u = find_func(parse("src/core/linter_utils.py"), "load_linter_config")
+    tries = [n for n in ast.walk(u) if isinstance(n, ast.Try)]
+    if len(tries) != 1 or len(tries[0].handlers) != 1:
+        raise Unsupported("load_linter_config: expected one try with one handler")
+    h = tries[0].handlers[0]
+    if "config_class.from_dict(config_dict, language=language)" not in ast.unparse(tries[0].body) or \
+            "config_class.from_dict(config_dict)" not in ast.unparse(h.body):
+        raise Unsupported("load_linter_config: try/except shape")
+    if h.type is None:
+        names = ["Exception"]
+    elif isinstance(h.type, ast.Tuple):
+        names = [ast.unparse(e) for e in h.type.elts]
+    else:
+        names = [ast.unparse(h.type)]
+    units = []
+    for unit, rel, cls, fns, _, _ in UNITS:
+        src = ""
+        for fn in fns:
+            if fn == "_config_key":
+                src += "load_linter_config("  # PythonOnlyLintRule._get_config (shape checked in lookup_table)
+            else:
+                src += ast.unparse(_func_in_class(rel, cls, fn))
+        if "load_linter_config(" in src:
+            units.append(unit)
+    return defn("retry_exceptions", "list string", coq_str_list(names)) + defn("retry_units", "list string", coq_str_list(units))
+
+
 # ------------------------------------------------------------------ from_dict defaults / language overrides
 def _module_consts(mod):
     out = {}
@@ -568,6 +598,7 @@ ITEMS = [
     ("context_config_attr", context_config_attr),
     ("lookup_table", lookup_table),
     ("opt_defaults", opt_defaults),
+    ("retry_without_language", retry_without_language),
     ("guards", guards),
     ("cli_overrides", cli_overrides),
     ("dash_config", dash_config),
